@@ -129,7 +129,7 @@ def toPyS (T : Tables) (G : GTables) (ty : Ty) (v : Val) : PyS :=
       | .any => .num n d false
       | _ => .unknown
     | none => .unknown
-  | .str s _ =>
+  | .str s k =>
     match ty.core with
     | .enum names _ =>
       match qualified names s with
@@ -139,7 +139,7 @@ def toPyS (T : Tables) (G : GTables) (ty : Ty) (v : Val) : PyS :=
         | none => .unknown
       | none => .unknown
     | .str => .str (T.strOf s) false
-    | .any => .str (T.strOf s) false
+    | .any => .str (T.strOf s) (k / 8 % 2 == 1)      -- kind bit 8: a constructor default that is an enum member
     | _ => .unknown
   | .list _ => .unknown
   | .map _ => .unknown
@@ -308,13 +308,19 @@ def envOf (T : Tables) (G : GTables) (schema : Option Ty) (block : Val) (dflts :
 
 /-- no guard of the class is known to reject the block -/
 def guardsPass (T : Tables) (G : GTables) (route : Nat) (cls : PStr × PStr) (schema : Option Ty) (block : Val) : Bool :=
-  let dflts := ((classInfo G route cls).map (·.params)).getD []
+  let dflts := ((classInfo G (if route = 4 then 0 else route) cls).map (·.params)).getD []
   (rowsOf G route cls).all fun r => evalRow r (envOf T G schema block dflts) != some false
 
 /-- the guards that could not be decided (reported, never an alarm) -/
 def guardsUndecided (T : Tables) (G : GTables) (route : Nat) (cls : PStr × PStr) (schema : Option Ty) (block : Val) : Nat :=
   let dflts := ((classInfo G route cls).map (·.params)).getD []
   ((rowsOf G route cls).filter fun r => evalRow r (envOf T G schema block dflts) == none).length
+
+/-- 0 = some guard is known to reject, 2 = none rejects but some guard is undecided, 1 = every guard passes -/
+def guardsVerdict (T : Tables) (G : GTables) (route : Nat) (cls : PStr × PStr) (schema : Option Ty) (block : Val) : Nat :=
+  let dflts := ((classInfo G (if route = 4 then 0 else route) cls).map (·.params)).getD []
+  let rs := (rowsOf G route cls).map fun r => evalRow r (envOf T G schema block dflts)
+  if rs.any (· == some false) then 0 else if rs.any (· == none) then 2 else 1
 
 /-! ## routes -/
 
@@ -339,6 +345,19 @@ def modelBlocksOf (T : Tables) (file : Val) : List Val :=
 /-- every model block of a file (the model and the additional models) passes the guards of its class -/
 def modelGuardsOk (T : Tables) (G : GTables) (file : Val) : Bool :=
   (modelBlocksOf T file).all (modelBlockGuardsOk T G)
+
+/-- dispatches without a raising `else` (route 4): every architecture / update-rule name of the block is one the dispatch
+knows — otherwise the value silently selects the fallback branch -/
+def modelBlockNamesOk (T : Tables) (G : GTables) (block : Val) : Bool :=
+  match modelClassOf T block with
+  | some cls => guardsPass T G 4 cls (modelSchema T block) block
+  | none => true
+
+def modelNamesOk (T : Tables) (G : GTables) (file : Val) : Bool :=
+  (modelBlocksOf T file).all (modelBlockNamesOk T G)
+
+def modelDefaultNamesOk (T : Tables) (G : GTables) (m : Sym) : Bool :=
+  modelBlockNamesOk T G (.map [(T.kModelName, .str m 0)])
 
 /-- the default configuration of a registered model (nothing but `model_name` given) -/
 def modelDefaultGuardsOk (T : Tables) (G : GTables) (m : Sym) : Bool :=
@@ -433,6 +452,7 @@ def sectionInUse (file : Val) (needs : List Sym) : Bool :=
   | _ =>
     match fileAt file needs with
     | some (.list (_ :: _)) => true
+    | some (.map (_ :: _)) => true
     | _ => false
 
 /-- merged value at the consumer's path: the file's value over the default of `DefaultConfig` (with `sectionTy` standing
@@ -467,5 +487,92 @@ def ctorAccepts (T : Tables) (info : ClassInfo) (fields : List Sym) (dropped giv
   (fields.all fun f => dropped.contains f || (info.params.any fun p => p.1 = f) ||
       (info.varkw && kwAllowed info.kwPolicy (T.strOf f))) &&
   (info.required.all fun p => given.contains p || fields.contains p)
+
+/-- a registered model: `Model(**cfg)` as `initialize_models_from_config` calls it — the main (MRI) model receives the two
+operators and every field but `engine_name`; a sub-network used as an additional model receives every field but the names -/
+def modelCtorOk (T : Tables) (G : GTables) (m : Sym × Bool) : Bool :=
+  let n := T.strOf m.1
+  match classInfo G 0 (packPair (modelTarget n)), lookupSchema T (modelConfigTarget n) with
+  | some info, some ty =>
+    if m.2 then ctorAccepts T info ty.fieldNames [T.kEngineName] [T.kForward, T.kBackward]
+    else ctorAccepts T info ty.fieldNames [T.kModelName, T.kEngineName] []
+  | _, _ => false
+
+/-- a dataset class: `build_dataset` calls `Cls(transform=…, **fields-but-name-and-transforms)` -/
+def datasetCtorOk (T : Tables) (G : GTables) (kTransform : Sym) (d : Sym) : Bool :=
+  match classInfo G 2 (packPair (datasetClassTarget (T.strOf d))), lookupSchema T (datasetConfigTarget (T.strOf d)) with
+  | some info, some ty => ctorAccepts T info ty.fieldNames [T.kName, T.kTransforms] [kTransform]
+  | _, _ => false
+
+/-- `build_masking_function(**masking)` then `MaskFunc(**init_args)`: the constructor's parameters without default are
+among the keys the block (or, for a typed block, `MaskingConfig`) supplies -/
+def maskCtorBinds (T : Tables) (G : GTables) (schema : Option Ty) (masking : Val) : Bool :=
+  match maskClassOf T masking with
+  | none => true
+  | some cls =>
+    match classInfo G 1 cls with
+    | none => false
+    | some info =>
+      let keys : List Sym :=
+        (match masking with | .map kvs => kvs.map (·.1) | _ => []) ++ (match schema with | some ty => ty.fieldNames | none => [])
+      info.required.all fun p => keys.contains p
+
+def rawBlockBindsOk (T : Tables) (G : GTables) (block : Val) : Bool :=
+  match maskingOf T block with
+  | some (.map kvs) => maskCtorBinds T G none (.map kvs)
+  | _ => true
+
+def blocksBindOk (T : Tables) (G : GTables) (file : Val) : Bool :=
+  (sectionBlocks T file T.kTraining).all (rawBlockBindsOk T G) && (sectionBlocks T file T.kValidation).all (rawBlockBindsOk T G)
+
+/-! ## attribute chains `cfg.a.b.c` against the typed schema -/
+
+/-- the chain only names declared fields: below a dataclass every step must be a field; below `Any` / a list nothing is
+known; a step taken on a scalar is a Python attribute of that scalar, not a key -/
+def chainOk : Ty → List Sym → Bool
+  | _, [] => true
+  | t, k :: ks =>
+    match t.core with
+    | .struct _ fields =>
+      match lookup k fields with
+      | some (ft, _) => chainOk ft ks
+      | none => false
+    | _ => true
+
+/-- the engine class a file selects reads `cfg.model.<field>`: the field exists in the file's model config class -/
+def engineFieldsOk (T : Tables) (reads : List (PStr × PStr × Sym)) (file : Val) : Bool :=
+  match file.get? T.kModel with
+  | some m =>
+    match m.get? T.kModelName, modelSchema T m with
+    | some (.str s _), some ty =>
+      let eng : Option Str :=
+        match m.get? T.kEngineName with
+        | some (.str e _) => if T.strOf e = [] then none else some (T.strOf e)
+        | _ => none
+      let target := packPair (engineTarget (T.strOf s) eng)
+      reads.all fun r => !(r.1 = target.1 ∧ r.2.1 = target.2) || ty.fieldNames.contains r.2.2
+    | _, _ => true
+  | none => true
+
+/-! ## `training.optimizer` → `str_to_class("torch.optim", …)` -/
+
+def strTorchOptim : Str := [116, 111, 114, 99, 104, 46, 111, 112, 116, 105, 109]     -- "torch.optim"
+
+def optimizerOk (T : Tables) (kOptimizer : Sym) (file : Val) : Bool :=
+  match effective (installedRoot T).defaultVal (some file) [T.kTraining, kOptimizer] with
+  | .str s _ => resolves T.modules (strTorchOptim, callHead (T.strOf s))
+  | _ => false
+
+/-! ## transform builder, both directions -/
+
+def nodup : List Sym → Bool
+  | [] => true
+  | x :: xs => !xs.contains x && nodup xs
+
+/-- flattened keys of an untyped block do not collide (`dict_flatten` lets the later one win silently) -/
+def rawFlattenInjective (T : Tables) (block : Val) : Bool :=
+  match block.get? T.kTransforms with
+  | some (.map kvs) => nodup (flattenKVs (removeKey T.kMasking kvs))
+  | _ => true
 
 end DirectVerif.Config
